@@ -177,6 +177,14 @@ func propC13(w *World, r *Report) {
 	br13 := newBoundsRun(w)
 	RunLosslessFor(w, r, "C13", br13)
 	runNarrowBoundIn(w, r, br13, "/cff")
+	var cffFns []*ssa.Function
+	for _, f := range w.LibFuncs() {
+		if strings.HasSuffix(fnPkgPath(f), "/cff") {
+			cffFns = append(cffFns, f)
+		}
+	}
+	RunPrevSentinel(w, r, cffFns)
+	r.Floor("prevsentinel", 1)
 	r.Floor("dicttypes", 15)
 	checkOffSize(w, r)
 	{
